@@ -11,8 +11,16 @@ ASSUMPTIONS = ['theorems are about Msimple (68 Tame types) and Mslot (78 Slotted
 KINDS = ['word', 'word', 'worddup', 'worddel', 'word', 'addonly', 'perm', 'word']
 
 
+def _oracle(d):
+    at = d.get('at', '')
+    if at.startswith(('tostr', 'add', 'rm', 'repl', 'dotx', 'obs')):
+        return 'acceptance / document order of children (C02) at %s: library %s, model %s' % (at, d.get('real'), d.get('model'))
+    return None
+
+
 def run(ctx):
-    return mc.generic_run(ctx, 'C02', KINDS, n_quick=40, n_thorough=400)
+    from props import combined
+    return combined.run_both(ctx, 'C02', KINDS, {'depths': [0, 1, 2, 3], 'mixed': 0.25, 'copy': 0.1, 'dots': True}, _oracle)
 
 
 def replay(ctx, payload):
